@@ -8,12 +8,13 @@ type ritem struct {
 	out string // what a consumer must observe when this item is yielded
 }
 
-// rin is a specification-side input list ("yields items, then Done / the injected error / a cancellation").
+// rin is a specification-side input list ("yields items, then Done / the injected error value / a cancellation of the request context").
 type rin struct {
 	items   []ritem
 	pos     int
 	term    int
 	stopped bool
+	msgErr  bool // stands for a Msg{Err: ...} message, not for an iterator (iterator.Stream)
 }
 
 func newRin(idx int, in InSpec, exp func(sym byte, i, k int) string) *rin {
@@ -36,13 +37,33 @@ func (r *rin) get(consume bool) obs {
 		return obs{K: 'v', ID: it.out, Sym: it.sym}
 	}
 	switch r.term {
-	case termErr:
-		return obs{K: 'e'}
-	case termCancel:
+	case termDone:
+		return obs{K: 'd'}
+	case termCancel, termDeadline:
 		return obs{K: 'c'}
 	}
-	return obs{K: 'd'}
+	return obs{K: 'e', ID: termNames[r.term]} // an error value handed out under a live context
 }
+
+// errClass names the kind of input failure a specification result stands for (used in deviation classes).
+func errClass(r obs) string {
+	if r.K == 'c' {
+		return "context-cancellation"
+	}
+	switch r.ID {
+	case "", "err":
+		return "input-error"
+	case "done-lookalike":
+		return "done-lookalike-input-error"
+	}
+	return "cancellation-class-input-error"
+}
+
+// isCancelClass: a cancellation of the request context or a cancellation-class error value.
+func isCancelClass(o obs) bool {
+	return o.K == 'c' || (o.K == 'e' && errClass(o) == "cancellation-class-input-error")
+}
+
 func (r *rin) next() obs { return r.get(true) }
 func (r *rin) head() obs { return r.get(false) }
 
